@@ -117,6 +117,9 @@ def cases(tier, seed):
             yield {"k": "time-dependent", "fam": fam, "n": n, "sector": sec, "scheme": sname}
         for sname in S:
             yield {"k": "truncated", "fam": fam, "n": n, "sector": sec, "scheme": sname}
+        if (fam, n) == MODELS[1][:2]:
+            for sname in S:
+                yield {"k": "step-type", "fam": fam, "n": n, "sector": sec, "scheme": sname}
         for base in ("ps", "ps2", "cmf-midpoint"):
             for init in ("random-complex", "right-canonical", "mpdm"):
                 if base == "cmf-midpoint" and init == "mpdm":
@@ -551,8 +554,55 @@ def run_solver(desc, seed):
     return {"nontrivial": True, "counters": {"evolve_calls": nrun}, "outcome": f"solver:{'viol' if viol else 'ok'}", "viol": list(viol.values()), "sample": {"desc": desc}}
 
 
+def run_step_type(desc, seed):
+    """the same time step handed over in every numeric type a caller may hold it in: the result must not depend on the type.
+    A TypeError that names the complex type (python complex with zero imaginary part in the integrators) is a refusal."""
+    from mc.budget import BudgetExceeded
+    ch = Chain(desc["fam"], desc["n"], seed)
+    sec = desc["sector"]
+    S = schemes()
+    H = ch.mpo_neutral()
+    viol = {}
+    nrun = nref = 0
+    spec, order, fam_ = S[desc["scheme"]]
+    tag = f"[{desc['fam']} scheme={desc['scheme']}]"
+    reps = {"real": [("float", 0.1), ("np.float64", np.float64(0.1)), ("complex(0.1,0)", complex(0.1, 0.0)), ("np.complex128(0.1)", np.complex128(0.1))]}
+    if not spec.get("adaptive"):
+        reps["imag"] = [("-0.1j", -0.1j), ("np.complex128(-0.1j)", np.complex128(-0.1j)), ("complex(0,-0.1)", complex(0.0, -0.1))]
+    for timek, lst in reps.items():
+        ref = None
+        for name, step in lst:
+            psi0 = make_init(ch, sec, "random-complex", H)
+            try:
+                out = evolve_once(psi0, H, step, make_config(spec))
+                v = dense_of(out)
+                nrun += 1
+            except TypeError as e:
+                if "complex" in str(e):
+                    nref += 1
+                    continue
+                add(viol, f"C09:step-type:exception:TypeError:{desc['scheme'].split(':')[0]}:{timek}", f"{tag}: step given as {name}: {e!r}")
+                continue
+            except BudgetExceeded:
+                continue
+            except Exception as e:
+                if refusal(e):
+                    nref += 1
+                    continue
+                add(viol, f"C09:step-type:exception:{classify_exception(e)}:{desc['scheme'].split(':')[0]}:{timek}", f"{tag}: step given as {name}: {e!r}")
+                continue
+            if ref is None:
+                ref = v
+            elif not close(v, ref, 1e-8):
+                add(viol, f"C09:step-type:{desc['scheme'].split(':')[0]}:{timek}", f"{tag}: the step given as {name} gives a result that differs from the step given as {lst[0][0]} by rel {rel_err(v, ref):.2e}")
+    return {"nontrivial": nrun >= 2, "rejected": 0, "counters": {"evolve_calls": nrun, "step_type_refused": nref}, "outcome": f"step-type:{'viol' if viol else 'ok'}",
+            "viol": list(viol.values()), "sample": {"desc": desc, "runs": nrun, "refused": nref}}
+
+
 def run_case(desc, seed):
     k = desc["k"]
+    if k == "step-type":
+        return run_step_type(desc, seed)
     if k == "solver":
         return run_solver(desc, seed)
     if k == "ladder":
